@@ -77,12 +77,23 @@ def check_r121(fx, rep):
         rep.oblige(empty, "R12.1", f"ctor:{b['def']}", F.loc(n["span"]), f"`{b['def']}` builds a layout from a non-empty vector `{T.short(t) if t else '?'}`: entries bypass the sorted insertion")
     rep.floor("R12.1", len(writers), 1, "functions mutating the layout's entry vector")
     n_sorted = 0
+    # helpers that do nothing to the vector but sort it by the right key: a call of one counts as the sort
+    sort_helpers = set()
+    for fn, ws in writers.items():
+        if all(m in SORTS for m, _, _ in ws) and all(sort_key_ok(n, m)[0] for m, n, _ in ws):
+            sort_helpers.add(F.strip_generics(fn))
     for fn, ws in sorted(writers.items()):
         b = fx.body(fn)
+        if F.strip_generics(fn) in sort_helpers:
+            rep.oblige(True, "R12.1", f"sort-helper:{fn}", F.loc(b["span"]), "", sample={"rule": "R12.1", "fn": fn, "role": "sort helper (sorts by (index, offset), nothing else)"})
+            continue
         rep.fn(fn)
         methods = [m for m, _, _ in ws]
         pushes = [(n, ps) for m, n, ps in ws if m in ("push", "insert", "extend", "append", "extend_from_slice")]
         sorts = [(m, n, ps) for m, n, ps in ws if m in SORTS]
+        for c, cps in F.calls(b["hir"]["value"]):
+            if F.strip_generics(F.callee_def(c) or "") in sort_helpers:
+                sorts.append(("helper", c, cps))
         others = [m for m in methods if m not in SORTS and m not in ("push",)]
         w = F.loc(b["span"])
         if others == ["insert"] and not pushes_only(ws):
@@ -110,7 +121,7 @@ def check_r121(fx, rep):
                     in_same = any(anc is blk for anc, key in sps)
                     cond = any(anc.get("k") in ("If", "Match", "Loop") and any(a2 is blk for a2, _ in sps[: i]) for i, (anc, key) in enumerate(sps))
                     if in_same and sk[1] >= pk[2] and not cond:
-                        key_ok, why = sort_key_ok(sn, m)
+                        key_ok, why = (True, "") if m == "helper" else sort_key_ok(sn, m)
                         if key_ok:
                             ok = True
                 rets = [r for r, rps in F.walk(blk) if r.get("k") == "Ret" and T._span_key(r["span"])[1] >= pk[2]]
